@@ -180,9 +180,43 @@ def run_lockstep(tier, seed, force=False):
                 rc, itext = vlib.run([hbin, "run"], timeout=1200, input=ct)
             else:
                 rc, itext = vlib.run([hbin] + args, timeout=3000)
+            # The harness streams every trace line as it is produced. If the crate under test corrupts memory and
+            # the process dies, the scripts finished so far and the prefix of the fatal one are kept (the destructor
+            # events that explain the crash precede it), the crash is recorded as a broken correspondence, and the
+            # remaining scripts of the profile are run by a fresh process.
+            crashes = 0
+            while rc != 0 and args is not None and crashes < 6:
+                crashes += 1
+                kept, tail = salvage(itext)
+                nscripts = int(args[args.index("--scripts") + 1])
+                first = int(args[args.index("--first") + 1]) if "--first" in args else 0
+                done = first + kept.count("\n#script ") + (1 if kept.startswith("#script ") else 0)
+                res["divergences"].append({"script": "%s/%s" % (bname, name), "line": -1, "components": ["op"],
+                                           "detail": "the harness process died (exit %d) while running a script against the "
+                                                     "implementation: %s" % (rc, tail[-800:])})
+                fatal = fatal_script(kept)
+                if fatal:
+                    fname, fops = fatal
+                    had_panic = any(o.split()[:1] == ["panic"] or (o.split()[:1] == ["collect"] and len(o.split()) > 3) for o in fops)
+                    for prop in ["C01", "C04"] + (["C11"] if had_panic else []):
+                        res["violations"].append({
+                            "property": prop, "key": None,
+                            "desc": "the implementation corrupts memory: the process running this script against the real crate "
+                                    "died with exit %d (%s) inside its last operation `%s`" % (rc, tail.strip().split("\n")[-1][:120] if tail.strip() else "no message", fops[-1]),
+                            "script": "%s/%s/%s" % (bname, name, fname), "line": len(fops) - 1, "script_text": "\n".join(fops)})
+                if done >= nscripts:
+                    itext, rc = kept, 0
+                    break
+                a2 = [x for x in args]
+                if "--first" in a2:
+                    a2[a2.index("--first") + 1] = str(done)
+                else:
+                    a2 += ["--first", str(done)]
+                rc, more = vlib.run([hbin] + a2, timeout=3000)
+                itext, args = kept + "\n" + more, a2
             # the harness' panic hook prints unexpected panics on stderr (merged here); they are reported through
             # `#alarm` lines of the script they belong to, so drop the raw lines before the model replays the trace
-            itext = "\n".join(l for l in itext.split("\n") if not l.startswith("PANIC:"))
+            itext = "\n".join(l for l in itext.split("\n") if not l.startswith("PANIC:") and not l.startswith("#next"))
             tf = os.path.join(cdir, "%s-%s.impl" % (bname, name))
             open(tf, "w").write(itext)
             if rc != 0:
@@ -237,6 +271,41 @@ def run_lockstep(tier, seed, force=False):
     res["wall_s"] = round(time.time() - t0, 1)
     json.dump(res, open(rfile, "w"))
     return res
+
+
+def clean_trace(text):
+    return "\n".join(l for l in text.split("\n") if not l.startswith("PANIC:") and not l.startswith("#next"))
+
+
+def salvage(text):
+    """Output of a harness process that died: keep every complete trace line (a `#script` header, comment lines and
+    op lines with their five `|`-separated fields); returns (kept text, the unparsable tail)."""
+    kept, tail = [], []
+    for l in text.split("\n"):
+        if l.startswith("#") or l.count(" | ") >= 4 and l.rstrip().endswith("|"):
+            kept.append(l)
+        elif l.strip():
+            tail.append(l)
+    return "\n".join(kept), "\n".join(tail)
+
+
+def fatal_script(kept):
+    """(name, ops) of the unfinished last script of a died harness: its completed ops plus the announced (`#next`)
+    operation that never returned."""
+    name, ops, nxt, done = None, [], None, True
+    for l in kept.split("\n"):
+        if l.startswith("#script"):
+            name, ops, nxt, done = l[len("#script"):].strip(), [], None, False
+        elif l.startswith("#done"):
+            done = True
+        elif l.startswith("#next"):
+            nxt = l[len("#next"):].strip()
+        elif l and not l.startswith("#"):
+            ops.append(l.split("|")[0].strip())
+            nxt = None
+    if name is None or done or nxt is None:
+        return None
+    return name, ops + [nxt]
 
 
 # ------------------------------------------------------------------------------------------
@@ -469,6 +538,7 @@ def search_failing_input(pid, divergences, budget=8):
                 alive.discard(int(t[1]))
         script = prefix + extension_ops(prefix, sorted(alive))
         rc, itext = vlib.run([hbin, "run"], input="#script ext\n" + "\n".join(script) + "\n", timeout=300)
+        itext = clean_trace(itext)
         if rc != 0:
             found.append({"property": pid, "key": None, "desc": "the implementation crashed (exit %d) on the extended diverging script" % rc,
                           "script": d["script"], "line": len(script) - 1, "script_text": "\n".join(script)})
@@ -558,7 +628,15 @@ def replay(pid, path):
         print("harness does not build:", outh[-2000:])
         return 1
     build_driver()
-    rc, itext = vlib.run([hbin, "run"], input="#script replay\n" + "\n".join(ops) + "\n", timeout=600)
+    rc, raw = vlib.run([hbin, "run"], input="#script replay\n" + "\n".join(ops) + "\n", timeout=600)
+    itext = clean_trace(raw)
+    if rc != 0:
+        kept, tail = salvage(raw)
+        f = fatal_script(kept)
+        print("VIOLATION-REPLAY property=%s: the implementation process died (exit %d: %s) inside operation `%s` (op %d of the script)" % (
+            pid, rc, tail.strip().split("\n")[-1][:160] if tail.strip() else "no message", f[1][-1] if f else "?", len(f[1]) if f else -1))
+        print(kept[-3000:])
+        return 1
     rc2, mtext = vlib.run([os.path.join(OCAML_OUT, "driver")], input=itext, timeout=600)
     si, sm = lockstep.parse_trace(itext), lockstep.parse_trace(mtext)
     bad = 0
